@@ -207,6 +207,17 @@ func judge(ex *execution) Verdicts {
 			tk = "own"
 		}
 		v.C01.Classes = []string{"collision:" + e.FatalPath + "/" + e.FatalFam, kindClass, "distance:" + dist, "target:" + tk, fmt.Sprintf("par:%d", c.Par)}
+		if e.FatalPath == "adjust" && e.FatalAt-e.FatalDist >= 0 && e.FatalAt-e.FatalDist < len(c.Chain) {
+			// how the earlier owner came to own the item
+			if k := hasOp(&c.Chain[e.FatalAt-e.FatalDist], e.FatalFam, e.FatalKey); k >= 0 {
+				op := c.Chain[e.FatalAt-e.FatalDist].Ops[k]
+				how := op.Act
+				if op.Rev {
+					how += "_rev"
+				}
+				v.C01.Classes = append(v.C01.Classes, "owner_by:"+how)
+			}
+		}
 		if ex.err == nil || !gotNil {
 			v.C01.Fail = fmt.Sprintf("expected a conflict error (%s) but got err=%s response-nil=%v", e.FatalDesc, errText(ex.err), gotNil)
 		}
